@@ -35,6 +35,48 @@ def sortSets (l : List SplitSet) : List String := sortStrings (l.map showStrList
 
 def firstSome {α} (l : List (Option α)) : Option α := l.findSome? id
 
+/-- Trees outside the property's scope (not binary): what the theorems still say of ANY tree —
+    two rearrangements per branch with both ends of degree three, same tips, exact restoration —
+    is evaluated on the implementation's output, and the model is compared exactly. -/
+def handleGeneral (m : Mode) (before text : String) (t : T) (recs : List Rec) (calls : Nat)
+    (wfF dumpF textF : String) (tags : List String) : Verdict :=
+  let rs := rearrangements t
+  let perRec : List (Option String) := (recs.zip (List.range recs.length)).map fun (r, i) =>
+    let at_ := " at rearrangement " ++ toString i
+    if r.applyOut != "ok" then some ("Apply: " ++ r.applyOut ++ at_)
+    else if r.wf1 != "ok" then some ("tree malformed after Apply: " ++ r.wf1 ++ at_)
+    else match T.undump r.dump1 with
+      | none => some ("unreadable dump after Apply" ++ at_)
+      | some t1 =>
+        if !(sameTips t t1 && t1.rooted == t.rooted) then some ("neighbour on other tips" ++ at_)
+        else if r.undoOut != "ok" then some ("Undo: " ++ r.undoOut ++ at_)
+        else if r.wf2 != "ok" then some ("tree malformed after Undo: " ++ r.wf2 ++ at_)
+        else if r.dump2 != before then some ("Undo does not restore the tree (dump differs)" ++ at_)
+        else if r.text2 != text then some ("Undo does not restore the text" ++ at_)
+        else none
+  let want := 2 * deg3Branches t
+  let callsOK : Bool := match m with
+    | .stop k => if k = 0 || calls < k then calls == want else calls == k && k ≤ want
+    | _ => calls == want
+  let finalBad : Option String :=
+    if wfF != "ok" then some ("tree malformed after the enumeration: " ++ wfF)
+    else if dumpF != before then some "tree changed by the enumeration (dump differs)"
+    else if textF != text then some "text changed by the enumeration"
+    else if !callsOK then some ("proposed " ++ toString calls ++ " rearrangements, " ++ toString (deg3Branches t) ++
+      " branches have both ends of degree three")
+    else none
+  match firstSome (perRec ++ [finalBad]) with
+  | some msg => ⟨.oracle, tags, msg⟩
+  | none =>
+    let nsT : List T := recs.filterMap fun r => T.undump r.dump1
+    let mns := ((rs.map (apply t)).filterMap id).take calls
+    let exact := mns.length == nsT.length && (List.zipWith (fun a b => a == b) mns nsT).all id
+    let msets := sortSets (((rs.map (apply t)).filterMap id).map (·.usplitSet))
+    let isets := sortSets (nsT.map (·.usplitSet))
+    if (rs.map (apply t)).any (·.isNone) then ⟨.tie, tags, "model Apply fails"⟩
+    else if !(isets.all msets.contains) then ⟨.tie, tags, "model neighbours differ (split sets)"⟩
+    else ⟨.pass, tags ++ tagIf exact "exact", ""⟩
+
 def handleEnum (m : Mode) (before text : String) (t : T) (recs : List Rec) (calls : Nat)
     (wfF dumpF textF : String) : Verdict :=
   let inner := innerBranches t
@@ -46,7 +88,9 @@ def handleEnum (m : Mode) (before text : String) (t : T) (recs : List Rec) (call
     tagIf (t.kids.any fun k => k.2.isLeaf) "tip-at-root" ++
     tagIf (innerBranchesShape t == inner) "shapecount" ++
     (match m with | .plain => ["plain"] | .double => ["double"] | .stop _ => ["stop"])
-  if !scope then ⟨.pass, "skip-outofscope" :: tags, ""⟩ else
+  if !scope then
+    (if t.uniqueTips then handleGeneral m before text t recs calls wfF dumpF textF ("general" :: tags)
+     else ⟨.pass, "skip-dupnames" :: tags, ""⟩) else
   -- ORACLE, on the implementation's own output only
   let ns : List (Option T) := recs.map fun r => T.undump r.dump1
   let nsT : List T := ns.filterMap id
@@ -92,11 +136,30 @@ def handleEnum (m : Mode) (before text : String) (t : T) (recs : List Rec) (call
   let isets := sortSets (nsT.map (·.usplitSet))
   let exact := mnsT.length == nsT.length && (List.zipWith (fun a b => a == b) mnsT nsT).all id
   let undoOK := exact && (List.zipWith (fun (r : NNI) (n : T) => match undo n r with | some u => u == t | none => false) (rs.take calls) nsT).all id
+  -- `double` mode: the model goes through the `applied` flag as the harness does
+  -- (Apply, Apply, look, Undo, Undo, look)
+  let objOK : Bool := match m with
+    | .double => ((rs.take calls).zip nsT).all fun (r, n) =>
+        match (Obj.mk r false).apply t with
+        | none => false
+        | some (t1, o1) =>
+          match o1.apply t1 with
+          | none => false
+          | some (t1', o1') =>
+            t1' == n &&
+            (match o1'.undo t1' with
+             | none => false
+             | some (t2, o2) =>
+               match o2.undo t2 with
+               | none => false
+               | some (t3, o3) => t3 == t && !o3.applied)
+    | _ => true
   let tie : Option String :=
     if mcalls != calls then some ("model proposes " ++ toString mcalls ++ " rearrangements")
     else if mall.any (·.isNone) then some "model Apply fails"
     else if (if exhaustive then msets != isets else !(isets.all msets.contains)) then some "model neighbours differ (split sets)"
     else if exact && !undoOK then some "model Undo of the implementation's neighbour differs from the original"
+    else if exact && !objOK then some "model Apply/Apply/Undo/Undo through the applied flag differs"
     else none
   match other with
   | some msg => ⟨.oracle, tags, msg⟩
@@ -128,6 +191,17 @@ def sameTextL : Kids → Kids → Bool
   | _, _ => false
 end
 
+/- the tree as its Newick text shows it: parent positions and branch ids forgotten -/
+mutual
+def stripT : T → T
+  | .node d _ k => .node d 0 (stripL k)
+def stripL : Kids → Kids
+  | [] => []
+  | (e, t) :: r => ({ e with id := 0 }, stripT t) :: stripL r
+end
+
+def textKey (t : T) : String := (stripT t).dump
+
 /-- `gotree nni`: the output lines re-read by the parser are the neighbours -/
 def handleCLI (t : T) (out : String) (recs : List (String × String)) : Verdict :=
   let inner := innerBranches t
@@ -154,6 +228,9 @@ def handleCLI (t : T) (out : String) (recs : List (String × String)) : Verdict 
     let tie : Option String :=
       if mall.any (·.isNone) then some "model Apply fails"
       else if sortSets (mallT.map (·.usplitSet)) != sortSets (nsT.map (·.usplitSet)) then some "model neighbours differ (split sets)"
+      -- each output tree is, as a text (child order, names, lengths, supports), one of the
+      -- model's neighbours; the order of the lines is not compared
+      else if sortStrings (mallT.map textKey) != sortStrings (nsT.map textKey) then some "model neighbours differ (text: child order or branch data)"
       else none
     if recs.length != 2 * inner then
       let msg := "gotree nni wrote " ++ toString recs.length ++ " trees, the tree has " ++ toString inner ++ " inner branches"
@@ -182,6 +259,33 @@ def handle (op : String) (f : List String) : Verdict :=
     match T.undump before, rl with
     | some t, some rl => handleCLI t out rl
     | _, _ => bad "C17.cli fields"
+  | "cli2", [_reqA, _reqB, beforeA, beforeB, out, recs, _stderr] =>
+    let rl : Option (List (String × String)) := (splitTerm "|" recs).mapM fun s =>
+      match s.splitOn ";" with
+      | [st, d, _] => some (st, d)
+      | _ => none
+    match T.undump beforeA, T.undump beforeB, rl with
+    | some ta, some tb, some rl =>
+      -- the output lines of the first tree come first, then those of the second (the two trees
+      -- have different tip names); a line that belongs to neither is given to the first
+      let isB (r : String × String) : Bool := match T.undump r.2 with
+        | some u => sameTips tb u
+        | none => false
+      let ra := rl.takeWhile (fun r => !isB r)
+      let rb := rl.dropWhile (fun r => !isB r)
+      if rb.any (fun r => !isB r) then ⟨.oracle, ["cli", "cli2"], "output trees of the two input trees are interleaved"⟩ else
+      let va := handleCLI ta out ra
+      let vb := handleCLI tb out rb
+      let tags := "cli2" :: (va.tags ++ vb.tags).eraseDups
+      -- a new violation on either tree goes first, then the known finding, then PASS
+      let known (v : Verdict) : Bool := v.detail.startsWith "class="
+      let pick : Verdict :=
+        if va.status != .pass && !known va then va
+        else if vb.status != .pass && !known vb then vb
+        else if va.status != .pass then va
+        else vb
+      { pick with tags := tags }
+    | _, _, _ => bad "C17.cli2 fields"
   | _, _ => bad ("C17: unknown op " ++ op)
 
 end Gotree.Driver.C17
